@@ -481,7 +481,7 @@ func parseNetworkMessage(version uint8, data []byte) (*PeerMessage, error) {
 			}
 		}
 	case PeerMessageTypeBatchFullChallenge:
-		if len(data[1:]) < 256 {
+		if len(data[1:]) < 237 {
 			return nil, fmt.Errorf("invalid full challenge message size %d", len(data[1:]))
 		}
 		offset := 1 + 4
